@@ -38,6 +38,24 @@ func SetPerm(f func(int) []int) {
 	perm.Store(&f)
 }
 
+var yield atomic.Pointer[func(string)]
+
+// SetYield installs the function called at every inserted scheduling point.
+func SetYield(f func(string)) {
+	if f == nil {
+		yield.Store(nil)
+		return
+	}
+	yield.Store(&f)
+}
+
+// Yield is a scheduling point inserted before an access to shared in-memory state.
+func Yield(where string) {
+	if f := yield.Load(); f != nil {
+		(*f)(where)
+	}
+}
+
 // Perm returns the order in which n receive clauses are polled.
 func Perm(n int) []int {
 	if f := perm.Load(); f != nil {
@@ -56,6 +74,7 @@ type Report struct {
 	Rewritten []string `json:"rewritten"` // file:line of every rewritten select
 	Refused   []string `json:"refused"`   // matching selects left alone, with the reason
 	Files     int      `json:"files_scanned"`
+	Yields    []string `json:"yields"` // file:line of every inserted scheduling point
 }
 
 // Generate scans repo, writes rewritten files and overlay.json under outDir and
@@ -110,7 +129,7 @@ func Generate(repo, outDir string) (string, *Report, error) {
 			return "", nil, err
 		}
 		rep.Files++
-		if !bytes.Contains(src, []byte("select")) {
+		if !bytes.Contains(src, []byte("select")) && !yieldScope(f, repo) {
 			continue
 		}
 		out, changed, err := rewriteFile(f, src, repo, rep)
@@ -214,10 +233,31 @@ func rewriteFile(name string, src []byte, repo string, rep *Report) ([]byte, boo
 		rep.Rewritten = append(rep.Rewritten, where)
 		return false // do not descend: nested selects inside a rewritten one are left alone
 	})
+	if yieldScope(name, repo) {
+		selEdits := append([]edit(nil), edits...)
+		for _, d := range f.Decls {
+			fd, ok := d.(*ast.FuncDecl)
+			if !ok || fd.Body == nil {
+				continue
+			}
+			locked := false
+			yieldBlock(fd.Body.List, &locked, func(st ast.Stmt) {
+				o := off(st.Pos())
+				for _, se := range selEdits {
+					if o >= se.start && o < se.end {
+						return
+					}
+				}
+				where := fmt.Sprintf("%s:%d", rel, fset.Position(st.Pos()).Line)
+				edits = append(edits, edit{o, o, fmt.Sprintf("verifhook.Yield(%q); ", where)})
+				rep.Yields = append(rep.Yields, where)
+			})
+		}
+	}
 	if len(edits) == 0 {
 		return nil, false, nil
 	}
-	sort.Slice(edits, func(i, j int) bool { return edits[i].start > edits[j].start })
+	sort.SliceStable(edits, func(i, j int) bool { return edits[i].start > edits[j].start })
 	out := append([]byte(nil), src...)
 	for _, e := range edits {
 		out = append(out[:e.start], append([]byte(e.text), out[e.end:]...)...)
@@ -267,4 +307,91 @@ func hasBareBreak(body []ast.Stmt) bool {
 		})
 	}
 	return found
+}
+
+// yieldScope: scheduling points are inserted in the engine's own packages only.
+func yieldScope(name, repo string) bool {
+	rel, err := filepath.Rel(repo, name)
+	if err != nil {
+		return false
+	}
+	rel = filepath.ToSlash(rel)
+	if strings.Contains(rel, "/testing/") {
+		return false
+	}
+	return strings.HasPrefix(rel, "internal/execute/")
+}
+
+var sharedCalls = map[string]bool{"Lock": true, "RLock": true, "Get": true, "Set": true, "Del": true, "Delete": true,
+	"CompareAndSwap": true, "Swap": true, "Add": true, "Load": true, "Store": true}
+
+// sharedCall: the statement itself (not a nested block or function literal) calls a
+// method that reads or writes shared in-memory state (a mutex, a concurrent map,
+// an atomic). The match is by method name on a selector chain: a false positive
+// only adds a harmless scheduling point.
+func sharedCall(st ast.Stmt) (found, lock bool) {
+	ast.Inspect(st, func(n ast.Node) bool {
+		switch v := n.(type) {
+		case *ast.BlockStmt, *ast.FuncLit:
+			return false
+		case *ast.CallExpr:
+			if se, ok := v.Fun.(*ast.SelectorExpr); ok && sharedCalls[se.Sel.Name] {
+				switch se.X.(type) {
+				case *ast.SelectorExpr, *ast.Ident:
+					found = true
+					if se.Sel.Name == "Lock" || se.Sel.Name == "RLock" {
+						lock = true
+					}
+				}
+			}
+		}
+		return true
+	})
+	return
+}
+
+// yieldBlock walks the statement lists of one function in source order and reports
+// the statements before which a scheduling point goes. After the first mutex
+// acquisition of the function no further point is inserted in it: a goroutine
+// must never be parked while it holds a mutex (a goroutine blocked on a mutex is
+// not durably blocked for testing/synctest). Function literals are separate
+// functions with their own flag.
+func yieldBlock(list []ast.Stmt, locked *bool, emit func(ast.Stmt)) {
+	for _, st := range list {
+		switch v := st.(type) {
+		case *ast.CaseClause: // the "statements" of a switch body are its clauses
+			yieldBlock(v.Body, locked, emit)
+			continue
+		case *ast.CommClause:
+			yieldBlock(v.Body, locked, emit)
+			continue
+		}
+		if _, isDefer := st.(*ast.DeferStmt); !isDefer && !*locked {
+			if found, lock := sharedCall(st); found {
+				emit(st)
+				if lock {
+					*locked = true
+				}
+			}
+		}
+		// nested statement lists and function literals
+		ast.Inspect(st, func(n ast.Node) bool {
+			switch v := n.(type) {
+			case *ast.FuncLit:
+				l := false
+				yieldBlock(v.Body.List, &l, emit)
+				return false
+			case *ast.BlockStmt:
+				yieldBlock(v.List, locked, emit)
+				return false
+			case *ast.CaseClause:
+				yieldBlock(v.Body, locked, emit)
+				return false
+			case *ast.CommClause:
+				yieldBlock(v.Body, locked, emit)
+				return false
+			}
+			return true
+		})
+	}
 }
